@@ -45,11 +45,13 @@ def worker(i):
     sh(f'git -C {lab}/repo checkout -q -- . ; git -C {lab}/repo clean -fdq')
     sh(f'rsync -a --exclude target {a.verif}/harness/ {lab}/harness/')
     sh(f"sed -i 's|/repo/|{lab}/repo/|g' {lab}/harness/Cargo.toml")
-    os.makedirs(f'{lab}/vr/evidence', exist_ok=True)
+    # The lab is a miniature /verif: check script, harness, regress/, findings/, known_findings.json, evidence/.
+    os.makedirs(f'{lab}/evidence', exist_ok=True)
     for d in ('regress', 'findings'):
-        sh(f'rsync -a {a.verif}/{d}/ {lab}/vr/{d}/')
-    shutil.copy(f'{a.verif}/known_findings.json', f'{lab}/vr/known_findings.json')
-    env = dict(os.environ, CARGO_NET_OFFLINE='true', PV_VERIF_ROOT=f'{lab}/vr', VERIF_SEED=a.seed)
+        sh(f'rsync -a {a.verif}/{d}/ {lab}/{d}/')
+    shutil.copy(f'{a.verif}/known_findings.json', f'{lab}/known_findings.json')
+    shutil.copy(f'{a.verif}/check', f'{lab}/check')
+    env = dict(os.environ, CARGO_NET_OFFLINE='true', PV_VERIF_ROOT=lab, VERIF_SEED=a.seed)
     while True:
         try: m = q.get_nowait()
         except queue.Empty: break
@@ -75,7 +77,7 @@ def worker(i):
             for p in props:
                 t0 = time.time()
                 try:
-                    r = sh(f'{lab}/harness/target/release/pv check {p} {a.t}', cwd=lab, env=env, timeout=600)
+                    r = sh(f'sh {lab}/check {p} {a.t}', cwd=lab, env=env, timeout=900)
                     rc = r.returncode
                     reason = ''
                     for line in r.stdout.splitlines():
